@@ -17,6 +17,7 @@ package main
 import (
 	"context"
 	"errors"
+	"fmt"
 	"io"
 	"log"
 	"os"
@@ -1130,7 +1131,62 @@ func waitBackOrParked(back, gid *int32) bool {
 // completion may arrive before the caller has reached its receive; the caller must be released with
 // that reply all the same.
 // returns 0 ok | 3 released with something else | 12 never released (parked in Call, entry gone) | 9 inconclusive
+// A request type with a registered pairing (XxxReq -> XxxAck): a response is matched by its sequence
+// number alone - whatever command id it carries (the Ack's, the request's own: Packet.Reply's
+// fall-back, none, something else), with or without an error code - and completes the call once.
+type PairEchoReq struct{ *wrapperspb.StringValue }
+type PairEchoAck struct{ *wrapperspb.StringValue }
+
+const (
+	pairReqID = 1101
+	pairAckID = 1102
+)
+
+func pairedReplies(c0 uint16) (int64, string) {
+	cli := qnet.NewRpcClient(context.Background(), 4)
+	cli.VerifSetCounter(c0)
+	for _, errno := range []int32{0, 3} {
+		for _, cmd := range []int32{pairAckID, pairReqID, 0, msgID, 4242, -1} {
+			var done, gotCode int32
+			gotCode = -1
+			cli.AsyncCall(node, &PairEchoReq{wrapperspb.String("q")}, func(m proto.Message, code int32) error {
+				atomic.AddInt32(&done, 1)
+				atomic.StoreInt32(&gotCode, code)
+				return nil
+			})
+			var req fatchoy.IPacket
+			select {
+			case req = <-cli.PendingQueue():
+			case <-time.After(2 * time.Second):
+				return 9, "paired request: no request on the queue"
+			}
+			ack := packet.New(cmd, req.Seq(), fatchoy.PFlagRpc, nil)
+			if errno > 0 {
+				ack.SetErrno(errno)
+			}
+			err := cli.Dispatch(ack)
+			// a reply that cannot be decoded (a command id naming no message type) is delivered as an
+			// internal error: the code is compared only where the reply is decodable or carries an error
+			codeOK := atomic.LoadInt32(&gotCode) == errno || (errno == 0 && cmd != pairAckID && cmd != pairReqID)
+			if err != nil || atomic.LoadInt32(&done) != 1 || !codeOK {
+				return 3, fmt.Sprintf("a call of a request type with a registered pairing Ack, answered with its own sequence number %d and command id %d (errno %d): Dispatch returned %v, the callback ran %d time(s) with code %d - want nil, once, code %d",
+					req.Seq(), cmd, errno, err, done, gotCode, errno)
+			}
+			if seqs, _ := cli.VerifPending(); len(seqs) != 0 {
+				return 3, fmt.Sprintf("paired request answered (command id %d): still outstanding %v", cmd, seqs)
+			}
+			if cli.Dispatch(ack) == nil || atomic.LoadInt32(&done) != 1 {
+				return 3, fmt.Sprintf("paired request (command id %d): the duplicate response was not reported as unmatched or completed the call again", cmd)
+			}
+		}
+	}
+	return 0, ""
+}
+
 func syncRace(trials int, seed uint64) (int64, string) {
+	if code, what := pairedReplies(uint16(seed >> 3)); code != 0 {
+		return code, what
+	}
 	cli := qnet.NewRpcClient(context.Background(), 0)
 	cli.VerifSetCounter(uint16(seed))
 	for tr := 0; tr < trials; tr++ {
@@ -1705,5 +1761,7 @@ func gen(a Args, out *Out) {
 func main() {
 	log.SetOutput(io.Discard)
 	packet.VerifRegister(msgID, wrapperspb.String(""))
+	packet.VerifRegister(pairReqID, &PairEchoReq{})
+	packet.VerifRegister(pairAckID, &PairEchoAck{})
 	Main(run, gen)
 }
